@@ -250,7 +250,7 @@ func TestC12(t *testing.T) {
 		name  string
 		alpha []gen.Tok
 		n     int
-	}{{"enum-full", gen.FullAlphabet(), fullLen}, {"enum-reduced", gen.ReducedAlphabet(), redLen}, {"enum-range", gen.RangeAlphabet(), redLen + 2}} {
+	}{{"enum-full", gen.FullAlphabet(), fullLen}, {"enum-reduced", gen.ReducedAlphabet(), redLen}, {"enum-range", gen.RangeAlphabet(), redLen + 1}} {
 		st.Stream(en.name, true, fmt.Sprintf("every token sequence of length 1..%d over %d tokens (only accepted ones are round-tripped), df in {none, dflt}", en.n, len(en.alpha)))
 		gen.EnumSeqs(en.alpha, en.n, cfg.Shard, cfg.NShards, func(seq []gen.Tok) {
 			s := gen.JoinSpace(seq)
@@ -263,7 +263,7 @@ func TestC12(t *testing.T) {
 	tcfg.Vals.Hostile = true
 	tcfg.MixedBracket = true
 	dfGen := rapid.SampledFrom([]string{"", "", "dflt", "é f"})
-	st.Rapid(t, "hostile-trees", cfg.N(50000, 3000000), func(rt *rapid.T) {
+	st.Rapid(t, "hostile-trees", cfg.N(35000, 3000000), func(rt *rapid.T) {
 		tree := gen.GenTree(tcfg).Draw(rt, "tree")
 		// sprinkle JSON-hostile strings into quoted positions
 		tree.Walk(func(_ int, n *gen.Node) {
